@@ -576,7 +576,7 @@ func runC04(c *core.Ctx, o Options) {
 						return
 					}
 					fa, ok := st.Addr.(*ssa.FieldAddr)
-					if !ok || !an.TypeIs(fa.X.Type(), "simplefix-go", "DefaultHandler") || !perHandler[an.FieldOf(fa).Name()] {
+					if !ok || !an.TypeIs(fa.X.Type(), "simplefix-go", "DefaultHandler") || !perHandler[an.FieldName(an.FieldOf(fa))] {
 						return
 					}
 					nSt++
@@ -589,8 +589,8 @@ func runC04(c *core.Ctx, o Options) {
 							fresh = true
 						}
 					}
-					c.Check(fresh, "F6", an.NameOf(fn), "handler."+an.FieldOf(fa).Name()+" is made for this handler", st.Pos(), "make(chan) / New…Pool()",
-						"DefaultHandler."+an.FieldOf(fa).Name()+" is set to "+an.Render(st.Val)+": a queue or handler registry taken from elsewhere is shared between connections — one connection's handlers then see another connection's messages")
+					c.Check(fresh, "F6", an.NameOf(fn), "handler."+an.FieldName(an.FieldOf(fa))+" is made for this handler", st.Pos(), "make(chan) / New…Pool()",
+						"DefaultHandler."+an.FieldName(an.FieldOf(fa))+" is set to "+an.Render(st.Val)+": a queue or handler registry taken from elsewhere is shared between connections — one connection's handlers then see another connection's messages")
 				})
 			}
 			c.Check(nSt >= 6, "F6", "DefaultHandler", "stores to the per-handler queues and registries found", token.NoPos, fmt.Sprint(nSt), fmt.Sprintf("only %d stores found (6 per constructor were confirmed)", nSt))
